@@ -420,7 +420,8 @@ Definition menv := list (list Z).     (* rows of every memory *)
 Definition mem_row (me : menv) (m : nat) (a : Z) : Z := nth (Z.to_nat a) (nth m me []) 0.
 
 (* ---------- one combinational sweep ---------- *)
-Definition eval_item (ws : list wire) (ms : list memdecl) (me : menv) (e : wenv) (it : item) : wenv :=
+(* sf: the reading of $shift with A_SIGNED used for this run (true = sign fill, false = logical; see cell_shift) *)
+Definition eval_item (sf : bool) (ws : list wire) (ms : list memdecl) (me : menv) (e : wenv) (it : item) : wenv :=
   match it with
   | ICell1 k sg aw yw a y =>
       let r := if (spec_w a =? aw) && (spec_w y =? yw) && (0 <=? aw) && (0 <=? yw)
@@ -430,7 +431,13 @@ Definition eval_item (ws : list wire) (ms : list memdecl) (me : menv) (e : wenv)
   | ICell2 k sa sb aw bw yw a b y =>
       let r := if (spec_w a =? aw) && (spec_w b =? bw) && (spec_w y =? yw) && (0 <=? aw) && (0 <=? bw) && (0 <=? yw)
                then match rd_spec e a, rd_spec e b with
-                    | Some av, Some bv => cell2 k sa sb aw bw yw av bv
+                    | Some av, Some bv =>
+                        match k with
+                        | KShift => if sb then None
+                                    else Some (if sf then cell_shift_signfill sa aw bw yw av bv
+                                               else cell_shift_logical sa aw bw yw av bv)
+                        | _ => cell2 k sa sb aw bw yw av bv
+                        end
                     | _, _ => None
                     end
                else None in
@@ -464,8 +471,8 @@ Definition eval_item (ws : list wire) (ms : list memdecl) (me : menv) (e : wenv)
   | _ => e
   end.
 
-Definition sweep (ws : list wire) (ms : list memdecl) (me : menv) (items : list item) (e : wenv) : wenv :=
-  fold_left (eval_item ws ms me) items e.
+Definition sweep (sf : bool) (ws : list wire) (ms : list memdecl) (me : menv) (items : list item) (e : wenv) : wenv :=
+  fold_left (eval_item sf ws ms me) items e.
 
 Fixpoint wenv_eqb (a b : wenv) : bool :=
   match a, b with
@@ -476,12 +483,12 @@ Fixpoint wenv_eqb (a b : wenv) : bool :=
 
 (* sweeps until nothing changes (the emitted netlists have no combinational loop at bit level, so this is the
    unique solution, independent of the order of the items); (env, converged) *)
-Fixpoint settle (fuel : nat) (ws : list wire) (ms : list memdecl) (me : menv) (items : list item) (e : wenv)
+Fixpoint settle (sf : bool) (fuel : nat) (ws : list wire) (ms : list memdecl) (me : menv) (items : list item) (e : wenv)
   : wenv * bool :=
   match fuel with
   | O => (e, false)
-  | S f => let e' := sweep ws ms me items e in
-           if wenv_eqb e e' then (e', true) else settle f ws ms me items e'
+  | S f => let e' := sweep sf ws ms me items e in
+           if wenv_eqb e e' then (e', true) else settle sf f ws ms me items e'
   end.
 
 (* ---------- clocked elements ---------- *)
@@ -613,16 +620,16 @@ Definition opt_eqb (a b : option Z) : bool :=
 Definition clocks_stable (items : list item) (e1 e2 : wenv) : bool :=
   forallb (fun c => opt_eqb (rd_spec e1 c) (rd_spec e2 c)) (clocks_of items).
 
-Definition step (fl : flat) (fuel : nat) (st : state) (ins : list (nat * Z)) : state * Z :=
+Definition step (sf : bool) (fl : flat) (fuel : nat) (st : state) (ins : list (nat * Z)) : state * Z :=
   let ws := f_wires fl in let ms := f_mems fl in let items := f_items fl in
   let e0 := st_env st in
-  let '(e1, ok1) := settle fuel ws ms (st_mem st) items (set_inputs ws e0 ins) in
+  let '(e1, ok1) := settle sf fuel ws ms (st_mem st) items (set_inputs ws e0 ins) in
   let ups := flat_map (ff_update e0 e1) items in
   let ops := wr_ops e0 e1 items in
   let rups := rd_updates ms (st_mem st) ops e0 e1 items in
   let '(me', okw) := apply_writes ms (st_mem st) ops in
   let e1' := fold_left (fun e u => match u with FU q v => wr_spec ws e q v end) (ups ++ rups) e1 in
-  let '(e2, ok2) := settle fuel ws ms me' items e1' in
+  let '(e2, ok2) := settle sf fuel ws ms me' items e1' in
   let code := if negb (ok1 && ok2) then ST_NOCONV
               else if negb (clocks_stable items e1 e2) then ST_DERIVED_CLOCK
               else if negb okw then ST_UNDEF_WRITE else ST_OK in
@@ -660,7 +667,7 @@ Definition observe (e : wenv) (obs : list (option (option nat * Z))) : list Z :=
 
 (* run: flatten, initial inputs, settle, observe; then one observation row per stimulus step.
    obs: (instance path, local wire, width) ; stimulus: per step, (top-level input wire, value) *)
-Definition run (d : doc) (obs : list (option (list nat * nat * Z))) (init_ins : list (nat * Z))
+Definition run_with (sf : bool) (d : doc) (obs : list (option (list nat * nat * Z))) (init_ins : list (nat * Z))
                (stim : list (list (nat * Z))) : list Z :=
   let n := length d in
   let fl := flatten (S n) d 0 0 0 in
@@ -672,16 +679,18 @@ Definition run (d : doc) (obs : list (option (list nat * nat * Z))) (init_ins : 
                        | Some (p, w, wd) => Some (resolve (S n) d 0 0 p w, wd)
                        | None => None
                        end) obs in
-    let '(e0, ok0) := settle fuel (f_wires fl) (f_mems fl) (init_mem fl) (f_items fl)
+    let '(e0, ok0) := settle sf fuel (f_wires fl) (f_mems fl) (init_mem fl) (f_items fl)
                              (set_inputs (f_wires fl) (init_env fl) init_ins) in
     let st0 := St e0 (init_mem fl) in
     let row0 := (if ok0 then ST_OK else ST_NOCONV) :: observe e0 robs in
     row0 ++
     snd (fold_left (fun (acc : state * list Z) ins =>
                       let '(st, out) := acc in
-                      let '(st', code) := step fl fuel st ins in
+                      let '(st', code) := step sf fl fuel st ins in
                       (st', out ++ code :: observe (st_env st') robs))
                    stim (st0, [])).
+
+Definition run := run_with SHIFT_SIGNED_FILLS_SIGN.
 
 (* ====================================================================== *)
 (* 3. Models of the lowering code                                         *)
@@ -969,3 +978,185 @@ Definition adff_next (w q d arstv : Z) (clk_edge arst : bool) : Z :=
   if arst then mask w arstv else if clk_edge then d else q.
 (* emit_drivers for a sync-reset domain: the reset assignment is appended last to the assignment list *)
 Definition d_with_sync_reset (w d_user init : Z) (rst : bool) : Z := if rst then put w d_user 0 w init else d_user.
+
+(* ====================================================================== *)
+(* 4. AssignmentList: _ir.NetlistDriver.emit_value (chunk windows, folding of an unconditional assignment into   *)
+(*    the default) and rtlil.ModuleEmitter.emit_assignment_list (reconstruction of nested switches)             *)
+(* ====================================================================== *)
+
+(* a condition net: Net.from_const(1), or output `bit` of Match cell number `cell` *)
+Inductive cnd := CTrue | CM (cell bit : nat).
+Definition cnd_eqb (a b : cnd) : bool :=
+  match a, b with
+  | CTrue, CTrue => true
+  | CM k i, CM k' i' => Nat.eqb k k' && Nat.eqb i i'
+  | _, _ => false
+  end.
+
+(* _nir.Match: enable net, matched value, one pattern set per output bit *)
+Record mcell := MC { mc_en : cnd; mc_sel : list net; mc_pats : list (list pattern) }.
+Definition mtab := list mcell.          (* Match cell k is the k-th entry *)
+
+(* _nir.Assignment *)
+Record nassign := NA { na_cond : cnd; na_start : Z; na_val : list net }.
+
+(* ---- NIR semantics ---- *)
+Definition pl_match (sel : Z) (pl : list pattern) : bool := existsb (fun p => pat_sem p sel) pl.
+(* Match output `bit` (enable aside): its pattern set matches and no earlier one does *)
+Fixpoint first_match (sel : Z) (pats : list (list pattern)) (bit : nat) : bool :=
+  match pats, bit with
+  | [], _ => false
+  | pl :: _, O => pl_match sel pl
+  | pl :: r, S b => negb (pl_match sel pl) && first_match sel r b
+  end.
+Fixpoint cnd_val (fuel : nat) (rho : valuation) (tab : mtab) (c : cnd) : bool :=
+  match c with
+  | CTrue => true
+  | CM k b =>
+      match fuel with
+      | O => false
+      | S f =>
+          match nth_error tab k with
+          | None => false
+          | Some mc => cnd_val f rho tab (mc_en mc) && first_match (nval rho (mc_sel mc)) (mc_pats mc) b
+          end
+      end
+  end.
+Definition cval (rho : valuation) (tab : mtab) (c : cnd) : bool := cnd_val (S (length tab)) rho tab c.
+
+(* AssignmentList: start from the default; every assignment in order, executed iff its condition is 1, replaces
+   len(value) bits at `start` (bits beyond the output width are ignored) *)
+Definition nir_step (cv : cnd -> bool) (rho : valuation) (w : Z) (acc : Z) (a : nassign) : Z :=
+  if cv (na_cond a) then put w acc (na_start a) (nlen (na_val a)) (nval rho (na_val a)) else acc.
+Definition nir_run (cv : cnd -> bool) (rho : valuation) (w : Z) (l : list nassign) (acc : Z) : Z :=
+  fold_left (nir_step cv rho w) l acc.
+
+(* ---- NetlistDriver.emit_value for the chunk [cs, ce) of the signal ---- *)
+Definition nslice (v : list net) (lo hi : Z) : list net := firstn (Z.to_nat (hi - lo)) (skipn (Z.to_nat lo) v).
+
+Fixpoint emit_value_loop (cs ce : Z) (l : list nassign) (default : list net) (kept : list nassign)
+  : list net * list nassign :=
+  match l with
+  | [] => (default, kept)
+  | a :: r =>
+      let len := nlen (na_val a) in
+      if ce <=? na_start a then emit_value_loop cs ce r default kept
+      else if na_start a + len <=? cs then emit_value_loop cs ce r default kept
+      else if cnd_eqb (na_cond a) CTrue && (na_start a =? cs) && (len =? ce - cs)
+              && (match kept with [] => true | _ => false end)
+      then emit_value_loop cs ce r (na_val a) kept
+      else
+        let '(start, value) :=
+          if na_start a <? cs then (0, skipn (Z.to_nat (cs - na_start a)) (na_val a))
+          else (na_start a - cs, na_val a) in
+        let value := if ce - cs <? start + nlen value then firstn (Z.to_nat (ce - cs - start)) value else value in
+        emit_value_loop cs ce r default (kept ++ [NA (na_cond a) start value])
+  end.
+(* sigdefault: the nets of the whole signal the chunk defaults to (init constant / the register's own output) *)
+Definition emit_value (cs ce : Z) (sigdefault : list net) (l : list nassign) : list net * list nassign :=
+  emit_value_loop cs ce l (nslice sigdefault cs ce) [].
+
+(* ---- rtlil.emit_assignment_list ---- *)
+(* the process body it builds (before _emit_process_contents prints it): assignments of nets at a bit offset of the
+   cell's own output, switches on a Match cell's value; an empty pattern list is the `default()` case *)
+Inductive ptree :=
+| PA (start : Z) (v : list net)
+| PS (sel : list net) (cases : list (list pattern * list ptree)).
+
+(* pattern_list == ("-" * len(match_cell.value),) *)
+Definition is_default (n : nat) (pl : list pattern) : bool :=
+  match pl with
+  | [p] => Nat.eqb (length p) n && forallb (fun b => match b with None => true | Some _ => false end) p
+  | _ => false
+  end.
+
+(* the `while True` search: climb from the assignment's condition through the `en` nets until `cond` (the Match cell
+   visited last is the one to enter) or until const 1 (not nested: back to the parent invocation) *)
+Inductive climb_res := Found (cell : nat) | NotNested | Stuck.
+Fixpoint climb (fuel : nat) (tab : mtab) (cond c : cnd) (last : option nat) : climb_res :=
+  match fuel with
+  | O => Stuck
+  | S f =>
+      if cnd_eqb c cond then match last with Some k => Found k | None => Stuck end
+      else match c with
+           | CTrue => NotNested
+           | CM k _ => match nth_error tab k with
+                       | Some mc => climb f tab cond (mc_en mc) (Some k)
+                       | None => Stuck
+                       end
+           end
+  end.
+
+(* emit_assignments(case, cond) over the not yet consumed assignments (`pos` = the head of the list):
+   (statements put into `case`, assignments left for the caller) *)
+Fixpoint emit_as (fuel : nat) (tab : mtab) (cond : cnd) (l : list nassign) : list ptree * list nassign :=
+  match fuel with
+  | O => ([], l)
+  | S f =>
+      match l with
+      | [] => ([], [])
+      | a :: r =>
+          if cnd_eqb (na_cond a) cond then
+            let '(ts, rest) := emit_as f tab cond r in (PA (na_start a) (na_val a) :: ts, rest)
+          else
+            match climb (S (S (length tab))) tab cond (na_cond a) None with
+            | Found k =>
+                match nth_error tab k with
+                | Some mc =>
+                    let '(cases, rest) := emit_cases f tab k (length (mc_sel mc)) (mc_pats mc) 0 l in
+                    let '(ts, rest') := emit_as f tab cond rest in
+                    (PS (mc_sel mc) cases :: ts, rest')
+                | None => ([], l)
+                end
+            | _ => ([], l)
+            end
+      end
+  end
+(* `for bit, pattern_list in enumerate(match_cell.patterns)`: one case per output bit, in order; a case with an empty
+   pattern list is filled but not added to the switch *)
+with emit_cases (fuel : nat) (tab : mtab) (k : nat) (selw : nat) (pats : list (list pattern)) (bit : nat)
+                (l : list nassign) : list (list pattern * list ptree) * list nassign :=
+  match fuel with
+  | O => ([], l)
+  | S f =>
+      match pats with
+      | [] => ([], l)
+      | pl :: ps =>
+          let '(body, rest) := emit_as f tab (CM k bit) l in
+          let '(cs, rest') := emit_cases f tab k selw ps (S bit) rest in
+          if is_default selw pl then (([], body) :: cs, rest')
+          else match pl with
+               | [] => (cs, rest')
+               | _ => ((pl, body) :: cs, rest')
+               end
+      end
+  end.
+
+Definition max_pats (tab : mtab) : nat := fold_right (fun mc m => Nat.max (length (mc_pats mc)) m) 0%nat tab.
+Definition al_fuel (tab : mtab) (l : list nassign) : nat :=
+  S (length l * S (S (length tab) * (max_pats tab + 3)))%nat.
+
+(* proc.assign(lhs, default); emit_assignments(proc, const 1); assert pos == len(cell.assignments)  (None = the assert) *)
+Definition emit_assignment_list (tab : mtab) (default : list net) (l : list nassign) : option (list ptree) :=
+  let '(ts, rest) := emit_as (al_fuel tab l) tab CTrue l in
+  match rest with
+  | [] => Some (PA 0 default :: ts)
+  | _ => None
+  end.
+
+(* the process body as values under a valuation: the RTLIL process semantics is exec_atrees above *)
+Fixpoint ptree_atree (rho : valuation) (t : ptree) : atree :=
+  match t with
+  | PA s v => TAssign s (nlen v) (nval rho v)
+  | PS sel cs =>
+      TSwitch (nlen sel) (nval rho sel)
+        ((fix go (cs : list (list pattern * list ptree)) : list (list pattern * list atree) :=
+            match cs with
+            | [] => []
+            | c :: cs' =>
+                (fst c, (fix run (ts : list ptree) : list atree :=
+                           match ts with [] => [] | t' :: ts' => ptree_atree rho t' :: run ts' end) (snd c)) :: go cs'
+            end) cs)
+  end.
+Definition exec_ptrees (rho : valuation) (w : Z) (ts : list ptree) (acc : Z) : Z :=
+  exec_atrees w (map (ptree_atree rho) ts) acc.
